@@ -16,7 +16,7 @@ const PRELUDE: &str = r#"script;
 
 use std::bytes::Bytes;
 use std::string::String;
-use std::u128::U128;
+use std::u128::*;
 use std::math::*;
 use std::convert::*;
 use std::primitive_conversions::{u8::*, u16::*, u32::*, u64::*, u256::*, b256::*};
@@ -510,9 +510,10 @@ fn apply(k: Kind, st: &St, op: &Op, step: u64) -> Step {
             done!(format!("{var} = {}::from({var}.as_raw_slice()); {o}({var});", k.ctor()), "from(raw_slice)", false)
         }
         Op::Iter => {
+            // position-weighted sum: order-sensitive, cannot overflow for the lengths explored
             let mut s: u64 = 0;
-            for x in &st.items {
-                s = s.wrapping_mul(16).wrapping_add(*x);
+            for (p, x) in st.items.iter().enumerate() {
+                s += (p as u64 + 1) * *x;
             }
             logs.push(w64(s));
             let key = match k {
@@ -520,7 +521,7 @@ fn apply(k: Kind, st: &St, op: &Op, step: u64) -> Step {
                 Kind::VecPair => "e.0.as_u64()",
                 _ => "e.as_u64()",
             };
-            done!(format!("let mut acc = 0u64; for e in v.iter() {{ acc = acc * 16 + {key}; }} log(acc);"), "iter", false)
+            done!(format!("let mut acc = 0u64; let mut pos = 1u64; for e in v.iter() {{ acc += pos * {key}; pos += 1; }} log(acc);"), "iter", false)
         }
         Op::EqClone => {
             logs.push(w64(1));
@@ -834,8 +835,8 @@ fn collection_plans(thorough: bool) -> Vec<Plan> {
         p.push(Plan { kind: Kind::Bytes, alpha: Alpha::Core, depth: 4, starts: vec![0, 1] });
         p.push(Plan { kind: Kind::Bytes, alpha: Alpha::Full, depth: 3, starts: vec![1] });
         p.push(Plan { kind: Kind::Bytes, alpha: Alpha::Full, depth: 2, starts: vec![0, 2, 3, 4] });
-        p.push(Plan { kind: Kind::Str, alpha: Alpha::Core, depth: 5, starts: vec![0] });
-        p.push(Plan { kind: Kind::Str, alpha: Alpha::Full, depth: 4, starts: vec![0, 1] });
+        p.push(Plan { kind: Kind::Str, alpha: Alpha::Core, depth: 4, starts: vec![0, 1] });
+        p.push(Plan { kind: Kind::Str, alpha: Alpha::Full, depth: 3, starts: vec![0, 1] });
     }
     p
 }
@@ -1290,7 +1291,7 @@ fn run(a: &vhcore::Args) -> i32 {
     }
     let all: Vec<RawCase> = groups.into_iter().flat_map(|g| g.cases).collect();
     eprintln!("[c27] generated {} cases in {:.1}s", all.len(), t0.elapsed().as_secs_f64());
-    let pool = Pool::new(a.jobs, vhcore::work_dir(ID));
+    let pool = Pool::new(a.jobs, vhcore::work_dir("C27/run"));
 
     // Mode F = Mode A self-check on the first batch of collection cases and of numeric cases
     let first: Vec<&RawCase> = all.iter().take(40).chain(all.iter().rev().take(40)).collect();
@@ -1344,7 +1345,7 @@ fn run(a: &vhcore::Args) -> i32 {
     rep.set("children_cpu_seconds", children_cpu_seconds());
     rep.set("exhaustive", true);
     if thorough {
-        rep.cap("thorough tier: the full alphabet is explored to depth 3 from 2 of the 4-5 start states (depth 2 from the others); depth 4 only over the core alphabet (String: depth 5 core / depth 4 full)");
+        rep.cap("thorough tier: the full alphabet is explored to depth 3 from 2 of the 4-5 start states (depth 2 from the others); depth 4 only over the core alphabet (String: depth 4 core / depth 3 full, both start states)");
     } else {
         rep.cap("quick tier: depth 3 over the core alphabet from 2 start states, depth 2 over the full alphabet from 4 start states");
     }
